@@ -798,6 +798,7 @@ def run(ctx):
         "the independent OVF reader/writer harness/c09_ovf.py is correct (cross-checked against the repository's sample files)",
         "truncation of text files and truncation outside check value + data block are not constrained by the property",
     ]
+    core.df_stage(ctx, df)   # mixed histories (spec/DF.tla): the clauses that come from this property's text
     return core.finish(ctx, rule=RULE, extra={"embeddings": [e.name for e in embs], "pool": [repr(v) for v in POOL]})
 
 
